@@ -755,6 +755,9 @@ def run(model, rep, tier):
     check_v1_scopes(model, rep)
     check_v1_alignment(model, rep)
     check_v1_summed_and_names(model, rep)
+    rep.rule('R19.9', 'every name loaded in expression_v1.py and expression_v2.py resolves (symtable)')
+    from rules import names as _names
+    _names.check(model, rep, 'R19.9', ('expression_v1', 'expression_v2'), 100)
     rep.require('R19.1', 35)
     rep.require('R19.2', 20)
     rep.require('R19.3', 30)
